@@ -8,7 +8,7 @@ From Coq Require Import QArith Qreduction Permutation Lia.
 Require Import Gatery.Bits.
 Require Import Gatery.gen.EventOrder.
 Require Import Gatery.SchedDefs Gatery.SchedOrder Gatery.SchedClocks Gatery.SchedTime Gatery.SchedRegs Gatery.SchedRun
-               Gatery.SchedReset Gatery.SchedInherit Gatery.SchedExamples.
+               Gatery.SchedReset Gatery.SchedInherit Gatery.SchedScopes Gatery.SchedExamples.
 Import ListNotations.
 Local Close Scope Q_scope.
 
@@ -444,3 +444,41 @@ Example config_inheritance_ex :
   [ (FALLING, RST_ASYNC, false, true, 0%N, 3%Q); (FALLING, RST_ASYNC, false, true, 0%N, 1%Q);
     (RISING, RST_SYNC, false, false, 5%N, 2%Q) ].
 Proof. exact inherit_ex. Qed.
+
+(* ========================================================================= *)
+(** * The ENABLE of registers created inside nested ENIF / IF / ELSE / ENALWAYS scopes *)
+
+(* scope_enable transcribes EnableScope::setEnable / ConditionalScope::setCondition (own condition AND the FULL
+   condition of the parent scope, level by level; an IF hands its accumulated condition to its enable scope; ENALWAYS
+   forgets the accumulated enable).  Its four-state value is the flat conjunction of the contributing conditions ... *)
+Theorem scope_enable_is_conjunction stack : opt_val (scope_enable stack) = conj3 (contrib stack).
+Proof. exact (scope_enable_conj stack). Qed.
+Print Assumptions scope_enable_is_conjunction.
+
+(* ... without ENALWAYS: of the conditions of ALL enclosing scopes (ELSE contributes the negation), ... *)
+Theorem scope_enable_all_conditions stack :
+  ~ In SC_ALWAYS stack -> opt_val (scope_enable stack) = conj3 (flat_map lit stack).
+Proof. exact (scope_enable_all stack). Qed.
+Print Assumptions scope_enable_all_conditions.
+
+(* ... independently of how the stack is split into the part accumulated by the parent scopes and the inner part *)
+Theorem scope_enable_split_independent outer inner :
+  ~ In SC_ALWAYS (outer ++ inner) ->
+  opt_val (scope_enable (outer ++ inner)) = and3 (opt_val (scope_enable outer)) (conj3 (flat_map lit inner)).
+Proof. exact (scope_enable_split outer inner). Qed.
+Print Assumptions scope_enable_split_independent.
+
+(* hence a register holds as soon as ANY enclosing ENIF / IF condition is a defined 0, however deep the nesting *)
+Theorem scope_enable_outer_low_holds stack c :
+  ~ In SC_ALWAYS stack -> In (SC_EN c) stack \/ In (SC_IF c) stack -> c = B0 -> opt_val (scope_enable stack) = B0.
+Proof. exact (scope_enable_holds stack c). Qed.
+Print Assumptions scope_enable_outer_low_holds.
+
+Example scope_enable_ex :
+  scope_enable [SC_EN B0; SC_EN B1; SC_EN B1] = Some B0 /\
+  scope_enable [SC_EN B0; SC_IF B1; SC_IF B1] = Some B0 /\
+  scope_enable [SC_EN B0; SC_ALWAYS; SC_EN B1] = Some B1 /\
+  scope_enable [SC_IF B0; SC_ALWAYS; SC_IF B1] = Some B0 /\
+  scope_enable [SC_EN BX; SC_ELSE B0; SC_EN B1] = Some BX /\
+  scope_enable [] = None.
+Proof. exact scope_ex. Qed.
